@@ -41,7 +41,7 @@ DBDIR = os.path.join(build.REPO, "database")
 SRC = ["native/sched/vsched.cpp", "native/sched/bodies.cpp", "native/sched/bodies.h"]
 BODIES = ["reg", "spec", "kin", "basic", "adv", "trn", "trm", "inv", "err", "cpp"]
 TRANSPORT_BODIES = {"trn", "trm"}
-MODEL_BODIES = ["pitz", "sit", "llnl"]      # same brine input on mini.dat + PITZER / SIT / LLNL block: the other activity-model code paths
+MODEL_BODIES = ["pitz", "sit", "llnl", "rx"]      # same brine input on mini.dat + PITZER / SIT / LLNL block: the other activity-model code paths; rx: surface (three diffuse-layer options), exchange, gas, solid solution, MIX, COPY, DUMP on mini.dat
 
 
 # ------------------------------------------------------------------------------------------------ build
